@@ -293,10 +293,15 @@ impl Parser {
 
         let maybe_class = input.user_data().get_type_of_executing_class();
 
-        if !value_ty.eq_complex(
-            expected_ty,
-            &TypecheckFlags::use_class(maybe_class.as_ref().map(Ref::clone)).lhs_unwrap(true),
-        ) {
+        // a value that may be nil never goes into a place whose type does not admit nil
+        let nil_into_plain_place = value_ty.is_optional().0 && !expected_ty.is_optional().0;
+
+        if nil_into_plain_place
+            || !value_ty.eq_complex(
+                expected_ty,
+                &TypecheckFlags::use_class(maybe_class.as_ref().map(Ref::clone)).lhs_unwrap(true),
+            )
+        {
             let hint = expected_ty
                 .get_error_hint_between_types(&value_ty, maybe_class)
                 .unwrap_or_default();
